@@ -235,6 +235,9 @@ def configure_v1(config: dict[str, Any]) -> dict[str, Any]:
     if "ibm" in config and "variables" in config["ibm"]:
         for var in config["ibm"]["variables"]:
             instance_variables[var] = "float"
+    # The extra forcing fields are state variables
+    for var in conf2["forcing"].get("extra_forcing", []):
+        instance_variables[var] = "float"
     for var in config["particle_release"]["variables"]:
         if var in ["mult", "X", "Y", "Z"]:  # Ignore
             continue
